@@ -54,7 +54,14 @@ func (e *Enc) applyContractVars(x ssa.Value, name string, fc *FuncC, vars map[st
 	pre := st.clone()
 	cpre := &Ctx{e: e, st: pre, old: pre, vars: vars}
 	// the callee's spec values are functions of its entry state
+	needSpecs := true
+	if e.fc != nil && len(e.fc.Uses) > 0 && !hasTag(e.fc.Uses, "C01") && !hasTag(e.fc.Uses, "C11") {
+		needSpecs = false // the spec values only occur in the functional clauses
+	}
 	for _, sp := range fc.Specs {
+		if !needSpecs {
+			break
+		}
 		v := cpre.eval(sp.E)
 		v.T = e.def("cspec_"+sp.Name, v.T)
 		vars[sp.Name] = v
@@ -68,7 +75,11 @@ func (e *Enc) applyContractVars(x ssa.Value, name string, fc *FuncC, vars map[st
 			if len(cj) > 1 {
 				label = fmt.Sprintf("%s #%d.%d %s", site, k+1, j+1, exprString(cx))
 			}
-			e.oblige("pre", label, append(append([]string{}, e.panicTags...), rq.Tags...), cpre.evalBool(cx), pos)
+			tags := rq.Tags
+			if len(tags) == 0 {
+				tags = e.panicTags
+			}
+			e.oblige("pre", label, tags, cpre.evalBool(cx), pos)
 		}
 	}
 	// frame: the callee's modifies must be inside ours; then havoc
@@ -155,6 +166,17 @@ func (e *Enc) applyContractVars(x ssa.Value, name string, fc *FuncC, vars map[st
 	}
 	cpost := &Ctx{e: e, st: st, old: pre, vars: vars}
 	for _, en := range fc.Ens {
+		if e.fc != nil && len(e.fc.Uses) > 0 && len(en.Tags) > 0 {
+			used := false
+			for _, t := range en.Tags {
+				if hasTag(e.fc.Uses, t) {
+					used = true
+				}
+			}
+			if !used {
+				continue // the caller's proof does not rely on this clause
+			}
+		}
 		e.assume(cpost.evalBool(en.E))
 	}
 	switch res.Len() {
